@@ -28,9 +28,9 @@ func init() {
 }
 
 func runC16(c *engine.Ctx) {
-	r1 := c.Rule("R1", "exactly one terminal event (sent/error) per extracted message on every path", 2)
-	r2 := c.Rule("R2", "subscribers attached at build time; topic closed after the final publish on every path", 3)
-	r3 := c.Rule("R3", "shutdown drains until extraction fails; enqueue/extract keep 'signalled iff builders remain'", 3)
+	r1 := c.Rule("R1", "exactly one terminal event (sent/error) per extracted message on every path", 1)
+	r2 := c.Rule("R2", "subscribers attached at build time; topic closed after the final publish on every path", 2)
+	r3 := c.Rule("R3", "shutdown drains until extraction fails; enqueue/extract keep 'signalled iff builders remain'", 2)
 	r4 := c.Rule("R4", "no enqueue after the final drain: appends to builders test a shutdown indicator under the builders lock", 1)
 
 	m := loadMQ(c, r1)
